@@ -254,3 +254,48 @@ func verifC06_recv() {
 	c.CloseNow()
 	vObserve("c06recv", nBefore, code, len(reason))
 }
+
+// C06.echo-window: Close with a reader pending (a Read or the CloseRead goroutine): the pending reader consumes the
+// peer's echo, and the peer hangs up right behind it. The reader is held up at the last moment - after it has released
+// the read lock, before it closes the connection (the harness holds closeMu, which Conn.close takes first) - so that
+// Close gets the read lock in exactly that window: it must report the completed handshake (nil), not the hang-up.
+// A pinned schedule instead of an explored one: deterministic in the engine and in the native replay.
+func verifC06_echo_window() {
+	client := vParam("client", 1) == 1
+	vInstallRand()
+	t := vNewTransport(nil)
+	t.endMode = vEndBlock
+	c := vNewConn(t, client, nil, 32, 64)
+	viaCloseRead := vChoose("reader", 2) == 1
+	rdone := make(chan error, 1)
+	if viaCloseRead {
+		c.CloseRead(vBG)
+	} else {
+		go func() {
+			_, _, err := c.Read(vBG)
+			rdone <- err
+		}()
+	}
+	vGhostSettle()
+	cdone := make(chan error, 1)
+	go func() { cdone <- c.Close(StatusNormalClosure, "") }()
+	vGhostSettle() // Close has sent its frame and waits for the read lock
+	c.closeMu.Lock()
+	echo := vFrame{fin: true, opcode: 8, masked: !client, payload: []byte{0x03, 0xe8}}
+	if echo.masked {
+		copy(echo.key[:], vBytes("key", 4))
+	}
+	t.endMode = vEndEOF // the peer hangs up right after its echo
+	t.vFeed(vEncodeFrame(echo))
+	vGhostSettle()
+	c.closeMu.Unlock()
+	err := <-cdone
+	vReach("C06.echo-window.close-returned")
+	vAssert(err == nil, "C06.result.nil-on-echo")
+	if !viaCloseRead {
+		rerr := <-rdone
+		vAssert(rerr != nil, "C06.echo-window.reader-fails")
+	}
+	c.CloseNow()
+	vObserve("c06window", err == nil)
+}
